@@ -33,7 +33,7 @@ def sanitize(op):
     return " ".join(t)
 
 
-def feed_stream(ctx, fams, n, every):
+def feed_stream(ctx, fams, n, every, feedop="feed"):
     ops = gen_api.stream(ctx.rng, fams, n, events={"sleep": 0.04}, dump_every=0, realtime=False)
     out = ["open b mem", "open a mem", "watch 2a 2a2f2a"]
     k = 0
@@ -46,7 +46,7 @@ def feed_stream(ctx, fams, n, every):
         out.append(sanitize(op))
         k += 1
         if every == 1:
-            out.append("feed")
+            out.append(feedop)
         elif k % every == 0:
             out += ["replicate b", "ldump", "inst b", "ldump", "inst a"]
     if every > 1:
@@ -71,7 +71,7 @@ def run(ctx, proofs_ok):
     n = 250 if q else 800
     for fi, fams in enumerate(FAMS):
         for i in range(reps):
-            if vlib.correspond_stream(ctx, hft, feed_stream(ctx, fams, n, 1), f"e{fi}-{i}", "emitted records compared with the model after every call: " + "+".join(fams)):
+            if vlib.correspond_stream(ctx, hft, feed_stream(ctx, fams, n, 1, "feedw" if i % 2 else "feed"), f"e{fi}-{i}", "emitted records compared with the model after every call (odd rounds: with the digest of each record's Op.Encode bytes): " + "+".join(fams)):
                 return
             if vlib.correspond_stream(ctx, hft, feed_stream(ctx, fams, n, 17), f"r{fi}-{i}", "closed loop primary -> Encode/DecodeOp -> ApplyPatch on a replica: " + "+".join(fams)):
                 return
